@@ -17,17 +17,17 @@ import (
 func init() { register("C18", runC18) }
 
 type c18Case struct {
-	mechs                             []string
-	tlsOff                            bool
-	tlsWord                           string // another spelling given for server.tls (only "disable" itself disables TLS)
-	hostSel                           string
-	queryKey                          string
-	tokenAuth                         bool
-	userToken                         bool
-	keytab                            bool
-	hosts                             int
-	lens                              map[string]int // key name -> configured length (-1 absent)
-	via                               string         // file | env | both
+	mechs     []string
+	tlsOff    bool
+	tlsWord   string // another spelling given for server.tls (only "disable" itself disables TLS)
+	hostSel   string
+	queryKey  string
+	tokenAuth bool
+	userToken bool
+	keytab    bool
+	hosts     int
+	lens      map[string]int // key name -> configured length (-1 absent)
+	via       string         // file | env | both
 }
 
 var c18Keys = []string{"security.paatokenencryptionkey", "security.paatokensigningkey", "security.usertokenencryptionkey", "server.sessionkey", "server.sessionencryptionkey"}
@@ -201,7 +201,7 @@ func runC18(r *Run) {
 	cases = append(cases, c) // openid without tokenauth
 	c = base()
 	c.mechs = []string{"local"}
-	cases = append(cases, c) // local with tls disabled
+	cases = append(cases, c)        // local with tls disabled
 	for i, w := range c18TlsWords { // local with the TLS mode spelled differently: TLS stays on
 		c = base()
 		c.mechs = []string{"local"}
